@@ -87,6 +87,8 @@ def diff(t, x):
         if op == 'app':
             name = a[0]
             args = a[1:]
+            if name == 'stopgrad':
+                return tm.ZERO
             if len(args) == 1 and name in ('exp', 'log', 'sqrt', 'ncdf', 'npdf', 'cos', 'sin', 'cbrt'):
                 v = args[0]
                 dv = d(v)
